@@ -301,8 +301,10 @@ CLAIMS["C08"] = {
 NOT_APPLICABLE.pop("C08", None)
 
 PROPS["C18"] = {
-    "quick": [{"name": "fx", "harnesses": ["c18_fxt_pair", "c18_brokertx_order_total"], "jobs": 2, "cbmc_args": BIG}],
-    "thorough": [{"name": "fx", "harnesses": ["c18_fxt_pair", "c18_brokertx_order_total"], "jobs": 2, "cbmc_args": BIG}],
+    "quick": [{"name": "fx", "harnesses": ["c18_fxt_pair", "c18_brokertx_order_total", "c18_implicit_fx_one_trade"], "jobs": 3,
+               "cbmc_args": BIG}],
+    "thorough": [{"name": "fx", "harnesses": ["c18_fxt_pair", "c18_brokertx_order_total", "c18_implicit_fx_one_trade"], "jobs": 3,
+                  "cbmc_args": BIG}],
     "functions": ["peripheral::broker::fx_tracker::FxTracker::{new,add_fxt_row,get_fx_txs,fx_tx}",
                   "<BrokerTx as Ord>::cmp", "<BrokerTx as Into<CsvTx>>::into", "<Tx as TryFrom<CsvTx>>::try_from"],
     "bounds": ("one FXT pair: both legs with symbolic currency (CAD/USD), sign, amount 0.01..20.00 and day (2 values); "
@@ -316,7 +318,8 @@ CLAIMS["C18"] = {
              "with the USD leg's absolute amount, Buy iff USD was received, the rate |CAD/USD| of its two legs, dated as "
              "the pair, accepted by Tx::try_from; any pair that is not one CAD and one USD leg of opposite sign on the "
              "same day is an error and its legs are not reused; an unpaired leg is an error. BrokerTx ordering is "
-             "antisymmetric and transitive with FX buys before FX sells on ties."),
+             "antisymmetric and transitive with FX buys before FX sells on ties. A single USD trade yields one implicit USD.FX row "
+             "of exactly its net USD cash flow (none when that is zero)."),
     "note": (TRUSTED + "The spreadsheet reader, the per-activity conversion and the implicit FX rows of USD trades are "
              "outside the check (see evidence.outside_bounds)."),
     "design_ref": "DESIGN.md 0, 5 C18",
